@@ -968,10 +968,556 @@ def correspondence(ctx):
     }
 
 
+
+# ---------------------------------------------------------------------------------------------
+# oracle: a reference ordered map implementing the sentences of the property (independent of Lean)
+# ---------------------------------------------------------------------------------------------
+class OutOfDomain(Exception):
+    """the operation uses objects the property does not speak about (class objects as values, …)"""
+
+
+class RefErr(Exception):
+    def __init__(self, kinds):
+        self.kinds = set(kinds)
+
+
+LIB_ERRS = {"err FIXMessageError", "err Duplicated", "err Unmapped", "err TagNotFound", "err Repeating"}
+
+
+def ref_tag(o):
+    """the integer a tag argument denotes, or None for a non-integer tag"""
+    FTag = _lib()[2]
+    if isinstance(o, bool):
+        return None
+    if isinstance(o, FTag):
+        return int(o.value)
+    if isinstance(o, enum.Enum):
+        raise OutOfDomain("non-tag enum member used as tag")
+    if isinstance(o, int):
+        return o
+    if type(o) is str:
+        try:
+            return int(o)
+        except ValueError:
+            return None
+    return None
+
+
+def noncanonical(o):
+    return type(o) is str and ref_tag(o) is not None and str(int(o)) != o
+
+
+def ref_value(v):
+    if isinstance(v, type):
+        raise OutOfDomain("class object as value")
+    return str(v)
+
+
+class RefCont:
+    """insertion-ordered map: int tag -> str | list[RefCont]"""
+
+    def __init__(self):
+        self.d = {}
+
+    def copy(self):
+        c = RefCont()
+        for k, v in self.d.items():
+            c.d[k] = v if isinstance(v, str) else [g.copy() for g in v]
+        return c
+
+    def canon(self):
+        return [(str(k), v if isinstance(v, str) else [g.canon() for g in v]) for k, v in self.d.items()]
+
+    # -- the sentences of the property -------------------------------------------------------
+    def set(self, tag, value, replace):
+        k = ref_tag(tag)
+        if k is None:
+            raise RefErr(["err FIXMessageError"])  # non-integer tags are refused
+        sv = ref_value(value)
+        if k in self.d and not replace:
+            raise RefErr(["err Duplicated"])  # setting an existing tag fails unless replacement is requested
+        self.d[k] = sv  # an existing key keeps its place, a new one goes last (dict semantics)
+
+    @staticmethod
+    def build(jd, resolve):
+        c = RefCont()
+        for kj, vj in jd:
+            key = to_py(kj)
+            if isinstance(vj, dict) and "list" in vj:
+                c.set_group(key, vj["list"], resolve)
+            else:
+                c.set(key, to_py(vj), False)
+        return c
+
+    @staticmethod
+    def item(ij, resolve):
+        if "dict" in ij:
+            return RefCont.build(dedup_literal(ij["dict"]), resolve)
+        if "ref" in ij:
+            tgt = resolve(ij["ref"])
+            if tgt is None:
+                raise LookupError(ij["ref"])
+            return tgt.copy()
+        raise RefErr(["err FIXMessageError"])
+
+    def add_group(self, tag, ij, idx, resolve):
+        errs = set()
+        k = ref_tag(tag)
+        if k is None:
+            errs.add("err FIXMessageError")
+        g = None
+        try:
+            g = RefCont.item(ij, resolve)
+        except RefErr as e:
+            errs |= e.kinds
+        if k is not None and isinstance(self.d.get(k), str):
+            errs |= LIB_ERRS  # misuse must be reported by a library error
+        if errs:
+            raise RefErr(errs)
+        lst = self.d.setdefault(k, [])
+        if idx is None or idx == -1:
+            lst.append(g)
+        else:
+            lst.insert(idx, g)
+
+    def set_group(self, tag, items, resolve):
+        errs = set()
+        k = ref_tag(tag)
+        if k is None:
+            errs.add("err FIXMessageError")
+        elif k in self.d:
+            errs.add("err Duplicated")
+        gs = []
+        for ij in items:
+            try:
+                gs.append(RefCont.item(ij, resolve))
+            except RefErr as e:
+                errs |= e.kinds
+                break
+        if errs:
+            raise RefErr(errs)
+        self.d[k] = gs
+
+    def group_list(self, tag):
+        k = ref_tag(tag)
+        if k is None or k not in self.d:
+            raise RefErr(["err TagNotFound"])
+        if isinstance(self.d[k], str):
+            raise RefErr(["err Unmapped"])
+        return self.d[k]
+
+
+def dedup_literal(jd):
+    """a dict literal keeps the FIRST position and the LAST value of equal Python keys"""
+    d = {}
+    for k, v in jd:
+        d.setdefault(_pykey(k), [k, v])[1] = v
+    return [kv for kv in d.values()]
+
+
+def _pykey(kj):
+    o = to_py(kj)
+    try:
+        return ("h", hash(o), o)
+    except TypeError:
+        return ("u", id(kj))
+
+
+def impl_canon(c):
+    out = []
+    for t, v in c.tags.items():
+        if isinstance(v, type):
+            raise OutOfDomain("class value in implementation state")
+        out.append((t, v if isinstance(v, str) else [impl_canon(g) for g in v.groups]))
+    return out
+
+
+def canon_dump(cn):
+    return "{" + "".join(hx(t) + "=" + ("s" + hx(v) if isinstance(v, str) else "[" + "".join(canon_dump(g) for g in v) + "]") + ";" for t, v in cn) + "}"
+
+
+class RefStore:
+    def __init__(self):
+        self.store = {}  # name -> [msg_type or None, RefCont]
+
+    def resolve(self, r):
+        name, path = parse_ref(r)
+        e = self.store.get(name)
+        if e is None:
+            return None
+        o = e[1]
+        for t, i in path:
+            k = ref_tag(t)
+            v = o.d.get(k)
+            if not isinstance(v, list) or not (0 <= i < len(v)):
+                return None
+            o = v[i]
+        return o
+
+    def need(self, r):
+        o = self.resolve(r)
+        if o is None:
+            raise LookupError(r)
+        return o
+
+    def run(self, op):
+        """-> set of acceptable replies (strings as produced by Impl.run), or None = unspecified"""
+        cmd = op[0]
+        try:
+            return self._run(cmd, op)
+        except RefErr as e:
+            return set(e.kinds)
+
+    def _run(self, cmd, op):
+        if cmd == "new":
+            self.store[op[1]] = [None, RefCont()]
+            return {"ok"}
+        if cmd in ("init", "initmsg"):
+            c = RefCont.build(dedup_literal(op[-1]), self.resolve)
+            self.store[op[1]] = [str(to_py(op[2])) if cmd == "initmsg" else None, c]
+            return {"ok"}
+        if cmd == "copy":
+            name, path = parse_ref(op[1])
+            src = self.need(op[1])
+            self.store[op[2]] = [self.store[name][0] if not path else None, src.copy()]
+            return {"ok"}
+        if cmd == "msgtype":
+            e = self.store.get(op[1])
+            if e is None or e[0] is None:
+                raise LookupError(op[1])
+            return {hx(e[0])}
+        if cmd == "setmsgtype":
+            e = self.store.get(op[1])
+            if e is None or e[0] is None:
+                raise LookupError(op[1])
+            e[0] = str(to_py(op[2]))
+            return {"ok"}
+        c = self.need(op[1])
+        if cmd in ("set", "setitem"):
+            c.set(to_py(op[2]), to_py(op[3]), bool(op[4]) if cmd == "set" else False)
+            return {"ok"}
+        if cmd == "del":
+            k = ref_tag(to_py(op[2]))
+            if k is None or k not in c.d:
+                return {"err Key"}
+            del c.d[k]
+            return {"ok"}
+        if cmd in ("get", "getitem"):
+            k = ref_tag(to_py(op[2]))
+            E = _lib()[0]
+            d = to_py(op[3]) if cmd == "get" else E.TagNotFoundError
+            if k is None or k not in c.d:
+                if d is E.TagNotFoundError:
+                    return {"err TagNotFound"}
+                if isinstance(d, type):
+                    raise OutOfDomain("class default")
+                return {("str " + hx(d)) if isinstance(d, str) else ("dflt " + hx(repr(d)))}
+            v = c.d[k]
+            return {"err FIXMessageError"} if isinstance(v, list) else {"str " + hx(v)}
+        if cmd == "isgroup":
+            k = ref_tag(to_py(op[2]))
+            if k is None or k not in c.d:
+                return {"None"}
+            return {str(isinstance(c.d[k], list))}
+        if cmd == "contains":
+            k = ref_tag(to_py(op[2]))
+            return {str(k is not None and k in c.d)}
+        if cmd == "addgroup":
+            c.add_group(to_py(op[2]), op[3], op[4], self.resolve)
+            return {"ok"}
+        if cmd == "setgroup":
+            c.set_group(to_py(op[2]), op[3], self.resolve)
+            return {"ok"}
+        if cmd == "grouplist":
+            return {"list " + " ".join(canon_dump(g.canon()) for g in c.group_list(to_py(op[2])))}
+        if cmd == "byindex":
+            lst = c.group_list(to_py(op[2]))
+            i = op[3]
+            if -len(lst) <= i < len(lst):
+                return {"cont " + canon_dump(lst[i].canon())}
+            return {"err TagNotFound"}
+        if cmd == "bytag":
+            lst = c.group_list(to_py(op[2]))
+            gk, gv = ref_tag(to_py(op[3])), to_py(op[4])
+            if isinstance(gv, type):
+                raise OutOfDomain("class gvalue")
+            acc = set()
+            for g in lst:
+                v = g.d.get(gk) if gk is not None else None
+                if isinstance(v, list):
+                    acc.add("err FIXMessageError")  # a group under the inner tag: unspecified, may raise
+                    continue
+                if v is not None and ((type(gv) is str and gv == v) or (isinstance(gv, enum.Enum) and str(gv.value) == v)):
+                    return acc | {"cont " + canon_dump(g.canon())}
+            return acc | {"err TagNotFound"}
+        if cmd == "query":
+            ts = [to_py(t) for t in op[2]]
+            keys = [ref_tag(t) for t in ts] if ts else list(c.d.keys())
+            if any(k is None for k in keys):
+                return {"err Value", "err Type", "err FIXMessageError"}
+            out, acc = {}, set()
+            for k in keys:
+                v = c.d.get(k)
+                if isinstance(v, list):
+                    return {"err FIXMessageError"}
+                out[str(k)] = v
+            return {"dict " + " ".join(hx(k) + "=" + ("d" + hx("None") if v is None else "s" + hx(v)) for k, v in out.items())}
+        if cmd == "eq":
+            b = self.need(op[2])
+            return {str(c.canon() == b.canon())}
+        if cmd == "eqdict":
+            dk = {}
+            for kj, vj in op[2]:
+                v = to_py(vj)
+                if isinstance(v, type):
+                    raise OutOfDomain("class in dict")
+                k = ref_tag(to_py(kj))
+                dk[("bad", str(to_py(kj))) if k is None else k] = str(v)
+            mine = {k for k in c.d if k not in FRAMING}
+            theirs = {k for k in dk if k not in FRAMING}
+            if mine != theirs:
+                return {"False"}
+            mismatch = any(isinstance(c.d[k], str) and c.d[k] != dk[k] for k in theirs)
+            if any(isinstance(c.d[k], list) for k in theirs):
+                return {"err FIXMessageError"} | ({"False"} if mismatch else set())
+            return {str(not mismatch)}
+        if cmd in ("str", "repr"):
+            return None
+        raise ValueError(op)
+
+    def canon_all(self):
+        return {n: (e[0], e[1].canon()) for n, e in self.store.items()}
+
+
+def all_tag_objects(op):
+    """every tag argument of an operation, nested dict literals included"""
+    out = []
+
+    def lit(jd):
+        for k, v in jd:
+            out.append(to_py(k))
+            if isinstance(v, dict) and "list" in v:
+                for i in v["list"]:
+                    if "dict" in i:
+                        lit(i["dict"])
+
+    cmd = op[0]
+    if cmd in ("init", "initmsg"):
+        lit(op[-1])
+    elif cmd in ("set", "setitem", "del", "get", "getitem", "isgroup", "contains", "grouplist", "byindex"):
+        out.append(to_py(op[2]))
+    elif cmd == "addgroup":
+        out.append(to_py(op[2]))
+        if "dict" in op[3]:
+            lit(op[3]["dict"])
+    elif cmd == "setgroup":
+        out.append(to_py(op[2]))
+        for i in op[3]:
+            if "dict" in i:
+                lit(i["dict"])
+    elif cmd == "bytag":
+        out += [to_py(op[2]), to_py(op[3])]
+    elif cmd == "query":
+        out += [to_py(t) for t in op[2]]
+    elif cmd == "eqdict":
+        out += [to_py(k) for k, _ in op[2]]
+    return out
+
+
+def group_tags_of(op):
+    """tags under which the operation creates groups (add_group / set_group / list values of dict literals)"""
+    out = []
+
+    def lit(jd):
+        for k, v in jd:
+            if isinstance(v, dict) and "list" in v:
+                out.append(to_py(k))
+                for i in v["list"]:
+                    if "dict" in i:
+                        lit(i["dict"])
+
+    cmd = op[0]
+    if cmd in ("init", "initmsg"):
+        lit(op[-1])
+    elif cmd == "addgroup":
+        out.append(to_py(op[2]))
+        if "dict" in op[3]:
+            lit(op[3]["dict"])
+    elif cmd == "setgroup":
+        out.append(to_py(op[2]))
+        for i in op[3]:
+            if "dict" in i:
+                lit(i["dict"])
+    return out
+
+
+def impl_keys_deep(o, acc):
+    for t, v in o.tags.items():
+        acc.append(t)
+        if not isinstance(v, (str, type)):
+            for g in v.groups:
+                impl_keys_deep(g, acc)
+    return acc
+
+
+def classify(op, acceptable, observed, impl, ref_before, state_only=False):
+    """name the kind of divergence; known kinds are exactly the recorded findings"""
+    cmd = op[0]
+    tags = all_tag_objects(op)
+
+    def target():
+        try:
+            return impl.resolve(op[1])
+        except Exception:  # noqa
+            return None
+
+    if cmd == "addgroup" and observed == "err Attribute":
+        tgt = ref_before.resolve(op[1])
+        k = ref_tag(to_py(op[2]))
+        if tgt is not None and k is not None and isinstance(tgt.d.get(k), str):
+            return "C18-add-group-plain-tag-attributeerror"
+    if cmd in ("addgroup", "setgroup", "init", "initmsg") and observed == "ok" and "err FIXMessageError" in (acceptable or ()):
+        if any(ref_tag(t) is None for t in group_tags_of(op)):
+            return "C18-group-tag-not-checked"
+    if cmd == "byindex" and observed == "err Index" and acceptable == {"err TagNotFound"}:
+        return "C18-by-index-indexerror"
+    if cmd == "eq" and acceptable == {"False"} and observed == "True":
+        a, b = impl.resolve(op[1]), impl.resolve(op[2])
+        if a is not None and b is not None and str(a) == str(b):
+            return "C18-eq-rendered-text"
+    if cmd == "eqdict":
+        # causal test: does the implementation agree with the reference once the framing tags are taken out of the dict?
+        tgt = target()
+        fr = {str(f) for f in FRAMING}
+        had = [kv for kv in op[2] if str(to_py(kv[0])) in fr]
+        if tgt is not None and had:
+            rest = {to_py(k): to_py(v) for k, v in op[2] if str(to_py(k)) not in fr}
+            try:
+                again = str(tgt == rest)
+            except Exception as e:  # noqa
+                again = "err " + kind_of(e)
+            if again in (acceptable or ()):
+                return "C18-eqdict-framing-tag-raises" if observed == "err TagNotFound" else "C18-eqdict-framing-tag-compared"
+    live = []
+    for o in impl.store.values():
+        impl_keys_deep(o, live)
+    if any(noncanonical(t) for t in tags) or any(noncanonical(t) for t in live):
+        return "C18-noncanonical-tag-distinct-key"
+    if any(ref_tag(t) is None for t in live):
+        return "C18-group-tag-not-checked"
+    what = "state" if state_only else observed
+    return f"C18-divergence:{cmd}:{what}"
+
+
+def oracle_run(ops):
+    """run one sequence on implementation and reference; -> (n_ops_checked, failure or None)"""
+    impl, ref = Impl(), RefStore()
+    n = 0
+    for i, op in enumerate(ops):
+        ref_before = copy.deepcopy(ref)
+        try:
+            acceptable = ref.run(op)
+        except OutOfDomain:
+            return n, None
+        except LookupError:
+            return n, None
+        try:
+            observed, _ = impl.run(op)
+        except RecursionError:
+            return n, None
+        if observed == "bad-op":
+            return n, None
+        n += 1
+        fail = None
+        if acceptable is not None and observed not in acceptable:
+            fail = (classify(op, acceptable, observed, impl, ref_before), f"{op[0]} replied {observed}, the reference ordered map allows {sorted(acceptable)}")
+        else:
+            try:
+                got = {nm: (str(o.msg_type) if hasattr(o, "msg_type") else None, impl_canon(o)) for nm, o in impl.store.items()}
+            except OutOfDomain:
+                return n, None
+            want = ref.canon_all()
+            if got != want:
+                fail = (classify(op, acceptable, observed, impl, ref_before, state_only=True),
+                        f"after {op[0]} (reply {observed}) the containers differ from the reference ordered map")
+                acceptable = {k: canon_dump(v[1]) for k, v in want.items()}
+                observed = {k: canon_dump(v[1]) for k, v in got.items()}
+        if fail:
+            return n, {"signature": fail[0], "what": fail[1], "input": {"ops": ops[: i + 1]},
+                       "expected": sorted(acceptable) if isinstance(acceptable, set) else acceptable, "observed": observed}
+    return n, None
+
+
+def gen_oracle_sequence(rng, dirty):
+    """clean stream: canonical tag spellings and clearly non-integer tags, values str/int/float/enum/None/bytes;
+    dirty stream: adds the non-canonical decimal spellings"""
+    seq = gen_sequence(rng, maxlen=25, odd=0.0, cls=0.0, clean_only=True)
+    extra = [J_s("x"), {"float": "1.0"}, J_s("1.0"), {"none": 1}, J_s("")] + ([J_s("01"), J_s(" 1"), J_s("+2"), J_s("1_0"), J_s("١")] if dirty else [])
+    out = []
+    for op in seq:
+        op = json.loads(json.dumps(op))
+        if op[0] in ("set", "setitem", "addgroup", "setgroup", "get", "contains", "del") and rng.random() < (0.25 if dirty else 0.06):
+            op[2] = rng.choice(extra)
+        if op[0] == "get" and "cls" in op[3] and op[3]["cls"] != "TagNotFoundError":
+            op[3] = {"none": 1}
+        out.append(op)
+    return out
+
+
 def oracle(ctx, disagreements, broken):
-    ctx.oracle_stats = {}
-    return []
+    failures, stats = [], {"sequences": 0, "ops": 0, "by_signature": {}}
+    seqs = []
+    # 1. witnesses of the recorded findings, 2. corpus, 3. disagreeing inputs, 4. samples
+    for k in C.load_findings(PROP):
+        w = k.get("witness", {})
+        if "ops" in w:
+            seqs.append(w["ops"])
+    seqs += [ops for _, ops in load_corpus()]
+    for d in disagreements:
+        if isinstance(d.get("input"), dict) and "ops" in d["input"]:
+            seqs.append(d["input"].get("shrunk_ops") or d["input"]["ops"])
+            seqs.append(d["input"]["ops"])
+    n_clean = ctx.n(600, 4000) * (5 if broken else 1)
+    n_dirty = ctx.n(150, 800)
+    for _ in range(n_clean):
+        seqs.append(gen_oracle_sequence(ctx.rng, False))
+    for _ in range(n_dirty):
+        seqs.append(gen_oracle_sequence(ctx.rng, True))
+    if broken:
+        for _ in range(ctx.n(1500, 8000)):
+            seqs.append(gen_sequence(ctx.rng, odd=0.05, cls=0.0))
+    seen = {}
+    for ops in seqs:
+        n, f = oracle_run(ops)
+        stats["sequences"] += 1
+        stats["ops"] += n
+        if f:
+            stats["by_signature"][f["signature"]] = stats["by_signature"].get(f["signature"], 0) + 1
+            prev = seen.get(f["signature"])
+            if prev is None or len(f["input"]["ops"]) < len(prev["input"]["ops"]):
+                seen[f["signature"]] = f
+    for sig, f in seen.items():
+        ops = f["input"]["ops"]
+
+        def still(cand, sig=sig):
+            try:
+                r = oracle_run(cand)[1]
+            except Exception:  # noqa
+                return False
+            return r is not None and r["signature"] == sig
+
+        small = shrink(ops, still, budget=120)
+        if len(small) < len(ops):
+            f2 = oracle_run(small)[1]
+            if f2 and f2["signature"] == sig:
+                f = f2
+        failures.append(f)
+    ctx.oracle_stats = stats
+    return failures
 
 
 def replay(ctx, rp):
-    return False
+    ops = rp["input"]["ops"]
+    n, f = oracle_run(ops)
+    print("replay:", json.dumps(ops)[:400], "->", f and (f["signature"], f["observed"]))
+    return f is not None and f["signature"] == rp["signature"]
